@@ -4,8 +4,13 @@ spec/ExportIO.tla:    the single write layer of the export interface as a state 
                       MemBounded, Conserved, ResultFaithful, action property TargetChange; Observable(target, size, len).
 spec/ExportText.tla:  the characters the text module and vbi_print_page_region (table mode) deliver for a page, TableReturn(size, needed).
 spec/CanvasCells.tla: region drawing at cell granularity: Post (exactly the region's cells become what the full-page rendering shows,
-                      everything else untouched), the drawing procedure Paint, Cuts (regions cutting a double width / size character).
-MC:  the three modules exhaustively on small constants (+ the companion configurations that must fail: no carry-over, no switch, no clipping).
+                      everything else untouched, incl. the margin right of the page's last column), the drawing procedure Paint, Cuts
+                      (regions cutting a double width / size character); pages = any arrangement of sizes, MC_CanvasCells: edge pages
+                      (a character of every size / a lone continuation cell in every column and row incl. the last ones).
+MC:  the three modules exhaustively on small constants (+ the companion configurations that must fail: no carry-over, no switch, no
+     clipping, clipping only for regions ending inside the page).
+GEN: spec/Gen_CanvasCells.tla prints every edge page x every region (format / stride / reveal / flash rotated); the check makes the page
+     real (X/26 enhancement through the decoder where the formatter can produce it, otherwise an edited vbi_page) and draws all of them.
 GEN: spec/Gen_ExportIO.tla prints operation scripts (entry point, caller size, write / putc / printf / grow / flush sequences).
 TV:  harness/drv_exportio.c (a) runs every script as a scripted export module through vbi_export_mem/_alloc/_stdio/_file and logs the
      public write-layer state after every output call and what the caller received; (b) decodes real Teletext / caption transmissions,
@@ -26,7 +31,10 @@ MANIFEST = dict(
               "public target functions with the struct vbi_export fields logged after every output call, and pages obtained by really decoding "
               "Teletext packets (Level 1-3.5 incl. DRCS) and caption byte pairs are exported by all five modules x option vectors to all four "
               "targets (caller buffers of every / edge / random sizes inside guard bytes), printed by vbi_print_page_region for every buffer "
-              "size, and drawn region by region into guarded canvases; TLC judges every logged line against the specifications",
+              "size, and drawn region by region into guarded canvases; in addition TLC enumerates edge pages (a double width / height / size "
+              "character or a lone continuation cell in every column and row of the page incl. the last ones) x all regions at cell granularity, "
+              "the pages are made real by X/26 enhancement packets through the decoder (or by editing the vbi_page where the formatter cannot "
+              "produce the arrangement) and every region is drawn; TLC judges every logged line against the specifications",
     text="TLC checks on the write-layer model, for all sequences of up to 5 (thorough 7) write / putc / printf / grow / flush calls of sizes "
          "{0,1,3} (and 8), caller buffers of 0..7 bytes and all four entry points: offset <= capacity, the caller's memory is only used in MEM "
          "mode within its size, buffer + sink always equal the produced stream, every entry point delivers exactly the stream and MEM returns "
@@ -34,12 +42,17 @@ MANIFEST = dict(
          "printable characters, replace graphics / DRCS / unrepresentable codes and that a region prints the matching part of the whole page; on "
          "the canvas model that any one to three region draws (all regions of a 4x3 / 5x3 page with double width, double size and double "
          "height characters, formats RGBA32_LE / PAL8 / unsupported) change only cells of the region, unsupported formats draw nothing, and "
-         "non-cutting regions show exactly what the full-page rendering shows. The real library is validated line by line: generated scripts "
+         "non-cutting regions show exactly what the full-page rendering shows, and the same for one draw of every region of every edge page "
+         "(6 columns x 4 / 5 rows standing for 41 x 25: one character of each size or one lone continuation cell in every column and row "
+         "incl. the last ones, where the page clips it); a drawing procedure that clips only regions ending inside the page violates the "
+         "frame condition there. The real library is validated line by line: generated scripts "
          "through vbi_export_mem/_alloc/_stdio/_file (state of struct vbi_export after every call, delivered bytes, guard bytes), and for "
          "decoded Teletext (Level 1, 1.5, 2.5, 3.5; double size, conceal, flash, boxes, DRCS, 15 national character sets) and caption pages: "
          "text, html, ppm, png, xpm with option vectors on all four targets (equal length and content, MEM for every size 0..needed+1 on "
          "small outputs and edge + random sizes on large ones), text and table output converted back from 11 encodings, table output for all "
-         "buffer sizes, and region drawings (vt and cc, formats, strides exact / padded / page wide / -1, reveal and flash).",
+         "buffer sizes, and region drawings (vt and cc, formats, strides exact / padded / page wide / -1, reveal and flash); every "
+         "region of every edge page is drawn on the real 41 x 25 / 41 x 12 / 41 x 4 Teletext page (and an edited 34 x 15 caption page) with TLC "
+         "checking that the real page and region are the modelled ones; edge pages are also exported by ppm / png / xpm.",
     note="Bounded: MC constants as above; the pages are seeded samples of what the decoder produces (not exhaustive); image exports are tried "
          "with every buffer size only on one- and two-row pages (fetched with display_rows 1, 2), otherwise sizes 0..8, needed-8..needed+1 "
          "and random ones. Glyph pixels inside a cell are not specified: the oracle for a cell is the library's own full-page rendering, as "
@@ -207,6 +220,57 @@ def make_sessions(ctx, quick):
     return sessions
 
 
+# ----------------------------------------------------------------------------- edge pages x all regions (Gen_CanvasCells)
+def edge_sessions(ctx, quick):
+    """One session per page TLC printed: the page of the model made real (Teletext: X/26 enhancement through the decoder where the
+    formatter can produce it, otherwise an edited vbi_page; caption: an edited caption page) and ALL its regions, each mapped to a real
+    region whose edges lie in the rows / columns the model's edges stand for."""
+    rnd = random.Random(ctx.seed * 104729 + 1616)
+    out = []
+    for fn, cfg in (("vt", "Gen_CanvasCells_q" if quick else "Gen_CanvasCells_t"), ("cc", "Gen_CanvasCells_cc")):
+        g = tlc.run("Gen_CanvasCells", cfg, timeout=1200, workers=2, heap="4g", collect_tr=True)
+        if g.violation:
+            raise tlc.ToolFailure("GEN run reported " + str(g.violation))
+        ctx.add_mc(g, "GEN " + cfg + " (edge pages x regions, %s)" % fn)
+        recs = {}
+        for rec in g.tr:
+            recs.setdefault(rec["pi"], rec)
+        if not recs:
+            raise tlc.ToolFailure(cfg + " printed no page")
+        for pi in sorted(recs):
+            rec = recs[pi]
+            d, geo, att = rec["d"], rec["geo"], rec["att"]
+            if fn == "vt":
+                n_cols = 41
+                n_rows = [25, geo["rows"], 25, 12][pi % 4]
+                setup, fetch = ep.edge_teletext(rnd, d, geo, att, n_rows)
+                if fetch is None:                                     # via edit / wrap
+                    fetch = ep.edge_edits(rec["sz"], geo, att, n_rows, n_cols)
+            else:
+                n_cols, n_rows = 34, 15
+                pairs = [(0x14, 0x20), (0x14, 0x20), (0x15, 0x50 | (pi % 16)), (0x15, 0x50)] + ep.caption_text(rnd, 8) + [(0x14, 0x2F), (0x14, 0x2F)]
+                from checks import c08
+                setup = ["K 1 %02x %02x" % (c08.par(a), c08.par(b)) for a, b in pairs] + ["c 1"]
+                fetch = ep.edge_edits(rec["sz"], geo, att, n_rows, n_cols)
+            plan = []
+            for cs in rec["cases"]:
+                c0, w = ep.edge_span(rnd, cs["c"], cs["w"], n_cols, geo["cols"], geo["fc"])
+                r0, h = ep.edge_span(rnd, cs["r"], cs["h"], n_rows, geo["rows"], geo["fr"])
+                plan.append(("D %s %s %s %d %d %d %d %d %d" % (fn, cs["f"], cs["s"], c0, r0, w, h, cs["rv"], cs["fl"]),
+                             dict(c="D", kind=fn, fmt=cs["f"], stride=cs["s"], col=c0, row=r0, w=w, h=h,
+                                  mrg=[cs["c"], cs["r"], cs["w"], cs["h"]], cut=cs["cut"])))
+            if fn == "vt" and (n_rows <= 12 or not quick):
+                # the image modules draw the page with routines of their own (row by row, palette based): all targets, a few caller sizes
+                for mod in ("xpm", "png", "ppm"):
+                    opts = ["aspect=0"] if (pi + len(mod)) % 2 or n_rows > 12 else []
+                    plan.append(("X %s 0 2 1 %d - 32 %s" % (mod, pi, ",".join(opts) or "-"), dict(c="X", mod=mod, opts=opts, decode="-", gfx=32)))
+            model = dict(rows=geo["rows"], cols=geo["cols"], fr=geo["fr"], fc=geo["fc"], sz=rec["sz"])
+            out.append(dict(kind=fn, setup=setup, desc="edge page %s of %s (size %d at model cell %d,%d, %d x %d)" % (
+                d["via"], cfg, d["k"], d["r"], d["c"], n_cols, n_rows),
+                fetches=[dict(cmd=fetch, rows=n_rows, cols=n_cols, plan=plan, model=model, via=d["via"])]))
+    return out
+
+
 # ----------------------------------------------------------------------------- running the recorder
 def session_lines(s):
     out = list(s["setup"])
@@ -291,8 +355,11 @@ def log_fetch(logs, si, fi, s, f, outs, shadow=None):
     cells = page["cells"]
     u = [c[0] for c in cells]; sz = [c[1] for c in cells]
     src0 = (si, fi, -1)
-    logs.add("text", dict(a="Page", rows=page["rows"], cols=page["cols"], u=u, sz=sz), src0)
-    logs.add("canvas", dict(a="Page", rows=page["rows"], cols=page["cols"], sz=sz), src0)
+    if f.get("model"):
+        logs.add("canvas", dict(a="Page", rows=page["rows"], cols=page["cols"], sz=sz, m=f["model"]), src0)
+    else:
+        logs.add("text", dict(a="Page", rows=page["rows"], cols=page["cols"], u=u, sz=sz), src0)
+        logs.add("canvas", dict(a="Page", rows=page["rows"], cols=page["cols"], sz=sz), src0)
     n = 0
     for pi, ((cmd, meta), o) in enumerate(zip(f["plan"], outs[1:])):
         src = (si, fi, pi)
@@ -330,8 +397,16 @@ def log_fetch(logs, si, fi, s, f, outs, shadow=None):
             do = o.get("d")
             if not do:
                 raise tlc.ToolFailure("draw command not executed: %s" % cmd)
-            logs.add("canvas", dict(a="Draw", fmt=meta["fmt"], stride=meta["stride"], col=meta["col"], row=meta["row"], w=meta["w"], h=meta["h"],
-                                    cells=split_cells(do["cells"]), pad=list(do["pad"]), pre=do["pre"], post=do["post"]), src)
+            rec = dict(a="Draw", fmt=meta["fmt"], stride=meta["stride"], col=meta["col"], row=meta["row"], w=meta["w"], h=meta["h"],
+                       pad=list(do["pad"]), pre=do["pre"], post=do["post"])
+            marks = set("".join(do["cells"]))
+            if len(marks) == 1 and len(do["cells"]) == meta["h"] and all(len(x) == meta["w"] for x in do["cells"]):
+                rec["uni"] = marks.pop()                                    # shorthand: all cells carry this mark
+            else:
+                rec["cells"] = split_cells(do["cells"])
+            if "mrg" in meta:
+                rec["mrg"] = meta["mrg"]
+            logs.add("canvas", rec, src)
         n += 1
     return n, page
 
@@ -381,10 +456,15 @@ def report(ctx, logs, which, bad, sessions, scripts=None):
         si, fi, pi = src
         s = sessions[si]; f = s["fetches"][fi]
         if pi < 0:
+            if cls == "binding":
+                raise tlc.ToolFailure("the page is not the page of the model (%s): %s (%s)\nmodel %s\npage  %s" % (
+                    what, f["cmd"], s["desc"], json.dumps(f.get("model")), json.dumps(rec)[:3000]))
             key = "tv:%s:%s:%s" % (which, what, cls)
             ctx.violate("tv", key, "page of %s (%s)" % (f["cmd"], s["desc"]), dict(kind="page", setup=s["setup"], fetch=f["cmd"], cmd=None, meta=None))
             continue
         cmd, meta = f["plan"][pi]
+        if cls == "binding":
+            raise tlc.ToolFailure("the case that ran is not the case TLC enumerated (%s): %s on the page of %s (%s)" % (what, cmd, f["cmd"], s["desc"]))
         if which == "io":
             key = "tv:io:%s:%s:%s" % (what, cls, meta["mod"])
         elif which == "text":
@@ -394,18 +474,24 @@ def report(ctx, logs, which, bad, sessions, scripts=None):
         short = {k: (v if not isinstance(v, list) or len(v) < 60 else v[:60] + ["..."]) for k, v in rec.items()}
         ctx.violate("tv", key, "%s on the page of %s (%s)\nTLC: line rejected: %s / %s\nlog line: %s" % (
             cmd, f["cmd"], s["desc"], what, cls, json.dumps(short)[:1500]),
-            dict(kind="page", setup=s["setup"], fetch=f["cmd"], cmd=cmd, meta=meta))
+            dict(kind="page", setup=s["setup"], fetch=f["cmd"], cmd=cmd, meta=meta, model=f.get("model")))
 
 
-def record_pages(ctx, drv, sessions, label, count=True):
+def record_pages(ctx, drv, sessions, label, count=True, shadow=True, workers=8):
     shadows = [shadow_of(s) for s in sessions]
-    both = core.pmap(lambda a: run_sessions(ctx, drv, a[0], workers=a[1], fill=a[2]), [(sessions, 6, 0x5A), (shadows, 2, 0x27)], workers=2)
-    res, res2 = both
+    if shadow:
+        both = core.pmap(lambda a: run_sessions(ctx, drv, a[0], workers=a[1], fill=a[2]), [(sessions, 6, 0x5A), (shadows, 2, 0x27)], workers=2)
+        res, res2 = both
+    else:
+        res = run_sessions(ctx, drv, sessions, workers=workers)
+        res2 = [None] * len(sessions)
     logs = Logs(ctx, label)
     cases = []
     for si, (s, r) in enumerate(zip(sessions, res)):
         r2 = res2[si]
-        if r2.get("skipped") or (r2["crashed"] and not core.sanitizer_reports(r2["stderr"])):
+        if r2 is None:
+            r2 = dict(lines=[])
+        elif r2.get("skipped") or (r2["crashed"] and not core.sanitizer_reports(r2["stderr"])):
             raise tlc.ToolFailure("second recorder process failed in session %d: %s" % (si, r2["stderr"][-1500:]))
         pos2 = 0
         if r.get("skipped"):
@@ -426,7 +512,7 @@ def record_pages(ctx, drv, sessions, label, count=True):
             n2 = 1 + len(shadows[si]["fetches"][fi]["plan"])
             outs2 = r2["lines"][pos2:pos2 + n2]
             pos2 += n2
-            n, page = log_fetch(logs, si, fi, s, f, outs, outs2 if len(outs2) == n2 else None)
+            n, page = log_fetch(logs, si, fi, s, f, outs, outs2 if shadow and len(outs2) == n2 else None)
             if page is None:
                 ctx.notes.append("no page for %s (%s)" % (f["cmd"], s["desc"])) if len(ctx.notes) < 20 else None
                 continue
@@ -518,9 +604,11 @@ def model_checking(ctx, quick):
             ("MC_ExportText", "MC_ExportText_q" if quick else "MC_ExportText_t", None),
             ("MC_CanvasCells", "MC_CanvasCells_q" if quick else "MC_CanvasCells_t", None),
             ("MC_CanvasCells", "MC_CanvasCells_q2" if quick else "MC_CanvasCells_t2", None),
+            ("MC_CanvasCells", "MC_CanvasCells_q3" if quick else "MC_CanvasCells_t3", None),
             # companions: the same invariants must fail when the design is broken
             ("ExportIO", "MC_ExportIO_nocarry", "Conserved"), ("ExportIO", "MC_ExportIO_noswitch", "MemBounded"),
-            ("ExportIO", "MC_ExportIO_reach", "NeverFitsAfterSwitch"), ("MC_CanvasCells", "MC_CanvasCells_noclip", "Frame")]
+            ("ExportIO", "MC_ExportIO_reach", "NeverFitsAfterSwitch"), ("MC_CanvasCells", "MC_CanvasCells_noclip", "Frame"),
+            ("MC_CanvasCells", "MC_CanvasCells_pageclip", "Frame")]
     if not quick:
         runs.insert(2, ("MC_ExportText", "MC_ExportText_t2", None))
 
@@ -536,6 +624,38 @@ def model_checking(ctx, quick):
             raise tlc.ToolFailure("%s: the broken design passes %s (the specification lost its teeth)" % (cfg, expect))
 
 
+def run_edge(ctx, drv, quick):
+    """every edge page of the model x every region (TLC enumerates, the driver draws, TLC judges)"""
+    sessions = edge_sessions(ctx, quick)
+    size = (len(sessions) + 3) // 4 if quick else 40
+    chunks = [list(range(k, min(k + size, len(sessions)))) for k in range(0, len(sessions), size)]
+
+    def job(idx):
+        part = [sessions[i] for i in idx]
+        logs, cases = record_pages(ctx, drv, part, "e%d" % idx[0], shadow=False, workers=2)
+        return part, logs, cases, judge(ctx, logs, "canvas", "edge pages %d.." % idx[0], heap="3g"), judge(ctx, logs, "io", "edge pages %d.." % idx[0], heap="3g")
+    npage = nwide = 0
+    for part, logs, cases, bad, bad_io in core.pmap(job, chunks, workers=4):
+        report(ctx, logs, "canvas", bad, part)
+        report(ctx, logs, "io", bad_io, part)
+        rejected = {logs.where["canvas"][ln - 1] for ln in bad} | {logs.where["io"][ln - 1] for ln in bad_io}
+        for src, canon, nontrivial in cases:
+            ctx.count_case(canon, nontrivial=nontrivial)
+            if src not in rejected and (src[0], src[1], -1) not in rejected:
+                ctx.validated()
+        for rec in logs.lines["canvas"]:
+            if rec["a"] == "Page":
+                npage += 1
+                cols = rec["cols"]
+                nwide += any(rec["sz"][r * cols + cols - 1] in (1, 3, 7) for r in range(rec["rows"]))
+    # vacuity guard: the arrangement the frame condition is about at the page's edge was really drawn
+    if (npage != len(sessions) or nwide < 3) and not ctx.violations:
+        raise tlc.ToolFailure("edge pages: %d of %d pages fetched, %d with a wide cell in the last column" % (npage, len(sessions), nwide))
+    ctx.notes.append("edge pages: %d pages x all regions of the model, %d pages with a double width / size cell in the last column" % (npage, nwide))
+    s = sessions[len(sessions) // 3]; f = s["fetches"][0]
+    ctx.sample(dict(source="TLC-enumerated " + s["desc"], fetch=f["cmd"], commands=[p[0] for p in f["plan"][:3]], regions=len(f["plan"])))
+
+
 def run(ctx):
     quick = ctx.tier == "quick"
     ctx.cov["rule"] = ("cases = (a) operation scripts generated by TLC from ExportIO, executed by a scripted export module through the four target "
@@ -543,13 +663,26 @@ def run(ctx):
                        "vbi_print_page_region(region, encoding) with a set of buffer sizes, draw (format, stride, region); every case is a group "
                        "of log lines judged by TLC; distinct by (page content, command) / script; non-trivial = the script overflows a caller "
                        "buffer or reaches a file, the export / print command ran (every one tries sizes below the needed one), the drawn page "
-                       "has double width or double size characters")
+                       "has double width or double size characters; (c) every region of every edge page enumerated by TLC (Gen_CanvasCells), one "
+                       "case per (page, region, format, stride, reveal, flash)")
     ctx.assumptions += ["the C library's iconv defines which code points an encoding can represent and converts the output back",
                         "libpng / zlib produce the same stream for the same image (png module)",
                         "RGBA32_LE canvases have row strides that are multiples of 4 bytes",
                         "glyph pixels inside a cell are trusted (the full-page rendering is the oracle for a cell)"]
     drv = build.build_driver("drv_exportio")
-    model_checking(ctx, quick)
+    # the exhaustive model checking runs beside the scripted export module (joined below: its verdicts and failures count as before)
+    from concurrent.futures import ThreadPoolExecutor
+    pool = ThreadPoolExecutor(1)
+    mc = pool.submit(model_checking, ctx, quick)
+    try:
+        run_bound(ctx, drv, quick, mc)
+    finally:
+        pool.shutdown(wait=True)
+    mc.result()
+    ctx.cov["exhaustive"] = False
+
+
+def run_bound(ctx, drv, quick, mc):
     # ---- scripted export module
     scripts = []
     for cfg, keep in ([("Gen_ExportIO_q", 1), ("Gen_ExportIO_big", 6)] if quick else [("Gen_ExportIO_t", 1), ("Gen_ExportIO_big", 1)]):
@@ -572,6 +705,9 @@ def run(ctx):
                 ctx.validated()
     if scripts:
         ctx.sample(dict(source="TLC-generated script for the scripted export module", command=w_line(scripts[len(scripts) // 2])))
+    mc.result()
+    # ---- edge pages x all regions
+    run_edge(ctx, drv, quick)
     # ---- pages
     sessions = make_sessions(ctx, quick)
     for k in range(0, len(sessions), 24):
@@ -593,7 +729,6 @@ def run(ctx):
             s = part[-1]; f = s["fetches"][0] if s["fetches"] else None
             if f:
                 ctx.sample(dict(source="decoded page (%s)" % s["desc"], fetch=f["cmd"], commands=[p[0] for p in f["plan"][:2]]))
-    ctx.cov["exhaustive"] = False
 
 
 def replay(ctx, rp):
@@ -607,9 +742,9 @@ def replay(ctx, rp):
         report(ctx, logs, "io", bad, None, [r["script"]])
         return
     plan = [(r["cmd"], r["meta"])] if r.get("cmd") else []
-    fetches = [dict(cmd=r["fetch"], rows=0, cols=0, plan=plan)] if r.get("fetch") else []
+    fetches = [dict(cmd=r["fetch"], rows=0, cols=0, plan=plan, model=r.get("model"))] if r.get("fetch") else []
     s = dict(kind="vt" if any(c.startswith("P ") for c in r["setup"]) else "cc", setup=r["setup"], desc="replay", fetches=fetches)
-    logs, cases = record_pages(ctx, drv, [s], "replay")
+    logs, cases = record_pages(ctx, drv, [s], "replay", shadow=not r.get("model"))
     for w in ("io", "text", "canvas"):
         for rec in logs.lines[w]:
             if rec["a"] != "Page":
@@ -625,6 +760,10 @@ def selftest(ctx):
     sessions = make_sessions(ctx, True)[:2]
     for s in sessions:
         s["fetches"] = s["fetches"][:1]
+    edge = [e for e in edge_sessions(ctx, True) if e["kind"] == "vt" and any(e["fetches"][0]["model"]["sz"])][:2]
+    for e in edge:
+        e["fetches"][0]["plan"] = e["fetches"][0]["plan"][:40]
+    sessions += edge
     logs, cases = record_pages(ctx, drv, sessions, "self")
     scripts = [dict(entry="MEM", csize=4, ops=[dict(op="w", n=3), dict(op="g", n=8), dict(op="c", n=1)]),
                dict(entry="FILE", csize=0, ops=[dict(op="w", n=3), dict(op="f", n=0), dict(op="p", n=3)])]
@@ -637,8 +776,18 @@ def selftest(ctx):
     def first(lg, which, pred):
         return next(i for i, r in enumerate(lg.lines[which]) if pred(r))
 
+    def expand(r):
+        if "uni" in r:
+            r["cells"] = [[r["uni"]] * r["w"] for _ in range(r["h"])]
+            del r["uni"]
+
     def flip_cell(r):
+        expand(r)
         r["cells"][0][0] = "U" if r["cells"][0][0] == "G" else "G"
+
+    def x_cell(r):
+        expand(r)
+        r["cells"][0][0] = "X"
     muts = [("io", wlogs, lambda r: r["a"] == "End" and r["out"], lambda r: r["out"].__setitem__(0, r["out"][0] ^ 1), "delivered byte changed"),
             ("io", wlogs, lambda r: r["a"] == "Op" and r["target"] == "ALLOC", lambda r: r.__setitem__("target", "MEM"), "target stays MEM"),
             ("io", wlogs, lambda r: r["a"] == "Op" and r["op"] == "g", lambda r: r.__setitem__("cap", r["off"]), "buffer not grown"),
@@ -653,8 +802,13 @@ def selftest(ctx):
             ("text", logs, lambda r: r["a"] == "Table" and len(r["runs"]) > 1, lambda r: r["runs"][0].__setitem__(2, 1), "short buffer reported as success"),
             ("canvas", logs, lambda r: r["a"] == "Draw" and r["fmt"] == "PAL8" and r["w"] == 41 and r["h"] == 1, flip_cell, "cell not drawn"),
             ("canvas", logs, lambda r: r["a"] == "Draw" and r["fmt"] == "PAL8", lambda r: r["pad"].__setitem__(0, "X"), "padding touched"),
-            ("canvas", logs, lambda r: r["a"] == "Draw" and r["fmt"] not in ("PAL8", "RGBA32_LE"), lambda r: r["cells"][0].__setitem__(0, "X"), "unsupported format drew"),
-            ("canvas", logs, lambda r: r["a"] == "Draw", lambda r: r.__setitem__("post", 12), "wrote behind the canvas")]
+            ("canvas", logs, lambda r: r["a"] == "Draw" and r["fmt"] not in ("PAL8", "RGBA32_LE"), x_cell, "unsupported format drew"),
+            ("canvas", logs, lambda r: r["a"] == "Draw", lambda r: r.__setitem__("post", 12), "wrote behind the canvas"),
+            ("canvas", logs, lambda r: r["a"] == "Draw" and "mrg" in r, lambda r: r.__setitem__("pad", ["X"] + r["pad"][1:]), "padding touched (edge page)"),
+            ("canvas", logs, lambda r: r["a"] == "Page" and "m" in r, lambda r: r["m"]["sz"].__setitem__(max(i for i, z in enumerate(r["m"]["sz"]) if z), 0),
+             "page is not the model's page"),
+            ("canvas", logs, lambda r: r["a"] == "Draw" and "mrg" in r and r["mrg"][0] > 1, lambda r: r["mrg"].__setitem__(0, r["mrg"][0] - 1),
+             "region is not the model's region")]
     for which, lg, pred, mut, what in muts:
         try:
             i = first(lg, which, pred)
